@@ -76,25 +76,24 @@ def Bounds.zero : Bounds := ⟨0, some 0⟩
 /-- extremal lengths of the built-in types handled outside the generic semantics, from their hand-written codecs
 (`wow_world_messages/src/manual/**`, `util/functions/shared.rs`): a mask of `m` bytes followed by one payload per set slot;
 a spline list is a u32 count, a full first point and packed further points; `hi = none` where the maximum is not modelled -/
+def bleafMax : List BLeaf → Nat
+  | [] => 0
+  | .u8 :: ls => 1 + bleafMax ls
+  | .u16 :: ls => 2 + bleafMax ls
+  | .pg :: ls => 9 + bleafMax ls
+  | _ :: ls => 4 + bleafMax ls
+
 def primBounds (n : String) : Bounds :=
   match primKind n with
   | .achDone => ⟨4, none⟩
   | .achProg => ⟨4, none⟩
   | .splines => ⟨4, none⟩
   | .updateMask => ⟨9, none⟩
-  | .other =>
-  if n == "AuraMask_1_12" then ⟨4, some (4 + 32 * 2)⟩
-  else if n == "AuraMask_2_4_3" then ⟨8, some (8 + 64 * 3)⟩
-  else if n == "AuraMask_3_3_5" then ⟨8, some (8 + 64 * 5)⟩
-  else if n == "EnchantMask" then ⟨2, some (2 + 16 * 2)⟩
-  else if n == "CacheMask" then ⟨4, some (4 + 32 * 4)⟩
-  else if n == "InspectTalentGearMask" then ⟨4, none⟩
-  else if n == "MonsterMoveSplines" then ⟨4, none⟩
-  else if n == "NamedGuid" then ⟨8, some (8 + 256)⟩
-  else if n == "VariableItemRandomProperty" then ⟨4, some 8⟩
-  else if n == "AchievementDoneArray" || n == "AchievementInProgressArray" then ⟨4, none⟩
-  else if n.startsWith "UpdateMask" then ⟨9, none⟩
-  else ⟨0, none⟩
+  | .mask w ls => ⟨w, some (w + 8 * w * bleafMax ls)⟩
+  | .gear => ⟨4, none⟩
+  | .namedGuid => ⟨8, some (8 + 256)⟩
+  | .virp => ⟨4, some 8⟩
+  | .other => ⟨0, none⟩
 
 def leafBounds (L : Limits) : Leaf → Bounds
   | .int k _ => ⟨k, some k⟩
